@@ -359,7 +359,25 @@ pub fn check_cli(e: &BFCase, text: &str, ctx: &mut Ctx) -> CheckResult {
             // bound: printing errors of the emitted components, per m2, weighted
             let n = e.b.n as f64;
             let nl = (e.b.lines.len() + 8) as f64;
-            let bound = (0.005 * nl * n * 3.0 * 3.0) / e.area as f64 + 0.011;
+            // accumulated printing error of the emitted energies [kWh]; its weighted effect is bounded by
+            // the largest factor in use (the derived cogeneration factor included), and the by-service
+            // tables are as ill conditioned as in the in-process comparison above: a carrier whose EPB
+            // use is of the order of the printing error spreads its whole weighted energy differently
+            let perr = 0.005 * nl * n * 3.0;
+            let (maxf, cond) = match inputs(&e.b, &e.f).and_then(|inp| eval_sound(&inp.comps, &inp.factors, e.k, e.area, e.lm)) {
+                Ok(ep) => {
+                    let maxf = ep.wfactors.wdata.iter().map(|x| x.ren.abs().max(x.nren.abs()).max(x.co2.abs()) as f64).fold(1.0, f64::max);
+                    let mut cond = 0.0;
+                    for bc in ep.balance_cr.values() {
+                        let w = [bc.we.a.ren, bc.we.a.nren, bc.we.a.co2, bc.we.b.ren, bc.we.b.nren, bc.we.b.co2].iter().fold(0.0f64, |m, x| m.max(x.abs() as f64));
+                        let u = bc.used.epus_an as f64;
+                        cond += w * if u > 0.0 { (4.0 * perr / u).min(1.0) } else { 1.0 };
+                    }
+                    (maxf, cond)
+                }
+                Err(_) => (1.0, 0.0),
+            };
+            let bound = (perr * 3.0 * maxf + 2.0 * cond) / e.area as f64 + 0.011;
             let scale: f64 = r1.all_numbers.iter().fold(0.0f64, |m, x| m.max(x.abs()));
             // entry by entry; a table entry missing on one side reads as zero (a carrier whose whole
             // use is below the printed precision disappears from the by-carrier tables)
